@@ -2,7 +2,7 @@
 # seed_recheck.sh CNN [check ids...]: re-run checks against an already confirmed seeded change
 # (/verif/seeded/CNN/patch.diff applied to a fresh scratch worktree of /repo HEAD).
 export GOFLAGS=-mod=mod GOPROXY=off GOSUMDB=off GOTOOLCHAIN=local
-P=$1; shift; CHECKS=${@:-$P}
+P=$1; shift; CHECKS=${@:-${P%%-*}}
 WT=/tmp/reseed-$P; DST=/verif/seeded/$P; LOG=$DST/verify.log
 git -C /repo worktree remove --force $WT 2>/dev/null
 git -C /repo worktree add --detach -q $WT HEAD || exit 2
